@@ -618,7 +618,18 @@ impl Executor for Session {
                     Ok(authority) => authority,
                     Err(err) => return Response::from(err),
                 };
-                let base = base_authorizations(&authority, &auth, gate::kql_permissions(&query));
+                let mut needed = gate::kql_permissions(&query);
+                // A read bound to a past coordinate through the envelope reads
+                // history exactly as one that spells `AS OF` does.
+                if request
+                    .read
+                    .as_ref()
+                    .is_some_and(|read| read.snapshot_token.is_some())
+                    && !needed.contains(&crate::governance::Permission::ReadHistory)
+                {
+                    needed.push(crate::governance::Permission::ReadHistory);
+                }
+                let base = base_authorizations(&authority, &auth, needed);
                 let _approval_guard = self.approval_guard(&base).await;
                 let decisions = match self.gate(&authority, &auth, base).await {
                     Ok(decisions) => decisions,
